@@ -2,7 +2,7 @@ INIT Init
 NEXT Next
 VIEW View
 CONSTANT RangeMode = TRUE
-CONSTANT MaxRecordData = 16
+CONSTANT MaxRecordData = 12
 CONSTANT Big = TRUE
 INVARIANT RefinesAccumulate
 INVARIANT ErrorsPreserveState
